@@ -448,6 +448,9 @@ class Path(object):
         if z3.is_true(c):
             sess.record(ObligationResult(name, kind, 'proved', detail, None, self.path_id, 'simplifier'))
             return True
+        prior = [r for r in sess.results.get(name, []) if r.status == 'failed' and r.model is not None]
+        if len(prior) >= 3:
+            return False
         t0 = time.time()
         # cheap first: the arithmetic abstraction often suffices
         if self._check(z3.Not(c)) == 'unsat':
@@ -471,9 +474,27 @@ class Path(object):
     def fail(self, name, kind, detail):
         """Record a violated obligation for which the path itself is the witness."""
         self.session.vc_count += 1
-        verdict, cex, backend = solve.check_forked(self.pc, self.concretize_inputs)
+        if os.environ.get("VERIF_DEBUG_FAIL"):
+            print("FAIL", name, detail, [e for e in self.trace if e[0] in ('call', 'return', 'raise', 'send')][:14])
+        prior = [r for r in self.session.results.get(name, []) if r.status == 'failed' and r.model is not None]
+        if len(prior) >= 3:
+            return      # already witnessed three times: further witnesses add nothing
+        # cheap feasibility first (arithmetic abstraction), then the full theory with a short limit
+        if self.solver.check() == z3.unsat:
+            raise Infeasible()
+        verdict, cex, backend = solve.check_forked(self.pc, self.concretize_inputs, hard_timeout=8)
         if verdict == 'unsat':
             raise Infeasible()
+        if verdict != 'sat' or cex is None:
+            # the sequence theory did not answer in time: take the inputs from the arithmetic model
+            # (sequence-valued inputs may be arbitrary); the replay on the real code decides
+            try:
+                if self.solver.check() == z3.sat:
+                    cex = self.concretize_inputs(self.solver.model())
+                    backend = 'z3-lia-approx'
+                    verdict = 'sat'
+            except Exception:
+                cex = None
         st = 'failed' if (verdict == 'sat' and cex is not None) else 'unknown'
         self.session.record_on(self, ObligationResult(name, kind, st, detail, cex, self.path_id, backend))
 
@@ -1096,6 +1117,10 @@ class Interp(object):
                 return v.args
             if name == '__class__':
                 return v.cls
+            if v.fields.get('__unknown_subclass__') and self._class_attr(v.cls, name) is None:
+                r = Opaque('object', 'exc.' + name, v.taint)
+                v.fields[name] = r
+                return r
             return self._class_getattr(v, v.cls, name, v.cls.__mro__)
         if isinstance(v, SEnum):
             if v.members is not None:
@@ -1343,6 +1368,7 @@ class Interp(object):
             for c in classes:
                 if isinstance(c, type) and issubclass(c, exc.cls):
                     if self.path.choose(2, "exc-match") == 0:
+                        exc.cls = c       # on this path it *is* an instance of the narrower class
                         return True
         return False
 
@@ -1513,6 +1539,10 @@ class Interp(object):
 
     def call_function(self, fn, args, kwargs, force_body=False):
         """Call a live Python function of the repository (or a spec function)."""
+        mod = getattr(fn, '__module__', '') or ''
+        if not (mod == 'kmip' or mod.startswith('kmip.') or mod.startswith('contracts')):
+            # third-party / stdlib Python code is never interpreted: it is an external call
+            return self.models.native_call(self, fn, args, kwargs)
         try:
             ex = extract.of_function(fn)
         except extract.FunctionNotFound:
